@@ -249,7 +249,11 @@ CLAIMS["C02"] = dict(
          "value accounting holds. Concurrent-stream drivers: see C13/C14 when claimed. "
          "The check re-proves, rebuilds the harness in std/alloc/no_std, runs all families with drop points uniform over "
          "the history and injected panics (profile `panic`), diffs the ownership projection (returns, child results, child "
-         "and value drops, drop begin/end) against the model and evaluates holds_C02 on the real traces.",
+         "and value drops, drop begin/end) against the model and evaluates holds_C02 on the real traces. Theorem C02_nest (+ C02_nest_dropped; FcProps/C02nest.lean): one level of nesting - outer and inner "
+         "instances satisfy the ownership monitor, the inner instance performs its drop exactly once and exactly when the "
+         "outer instance releases that child; after the nest's drop every plain child and every leaf was dropped exactly once "
+         "and every produced value was returned or dropped exactly once (hypotheses: matching kinds, wait_until with 2 "
+         "children, at most one drop op).",
     note=TB + " The model's history alphabet allows a second `drop` operation, which Rust's ownership rules out; the "
          "theorems assume at most one drop op for the families whose children are plain fields. Memory effects of a wrong "
          "bookkeeping (UB) are outside the model: the model shows the bookkeeping never asks for a second drop or reads an "
@@ -270,7 +274,11 @@ CLAIMS["C03"] = dict(
          "inserting, removing, reserving, extending and dropping poll nothing, a removed or finished member is never polled "
          "again, members are polled only inside a poll of the live group (None is not final for a group: it can be refilled). Concurrent-stream source: see C13-C15 when claimed. The check re-proves, rebuilds the harness in "
          "the three builds, runs all families, diffs the projection against the model and evaluates holds_C03 on the "
-         "real traces.",
+         "real traces. Theorem C03_nest (FcProps/C03nest.lean): one level of nesting (lock-step model Fc/Nest.lean; any non-group "
+         "families of matching kinds outside and inside, hypothesis Nest.kindOk): at every boundary of every history the "
+         "outer instance and every inner instance satisfy the same monitor, and the link holds - an inner instance is polled "
+         "exactly when the outer instance polls that child (poll counts agree), never after it was released and never after "
+         "it gave its final answer (Nest.pollsOk).",
     note=TB, design_ref="DESIGN.md §7 C03")
 
 CLAIMS["C11"] = dict(
